@@ -197,6 +197,15 @@ fn a22udp__aes_decrypt_in_place<B: MutBlock + ?Sized>(kind: CipherKind, key: &[u
         r is Err ==> final(buf).blk() == old(buf).blk(),
         final(buf).blk().len() == old(buf).blk().len(),
 { unimplemented!() }
+#[verifier::external_body]
+fn a22udp__aes_encrypt_in_place<B: MutBlock + ?Sized>(kind: CipherKind, key: &[u8], header: &mut B) -> (r: anyhow::Result<()>)
+    requires kind.has_eih(), old(header).blk().len() == 16,
+    ensures r is Ok == (key@.len() == key_len_of(kind)),
+        r is Ok ==> final(header).blk() == aes_ecb_enc(aes_bits(kind), key@, old(header).blk()),
+        r is Err ==> final(header).blk() == old(header).blk(),
+        final(header).blk().len() == old(header).blk().len(),
+{ unimplemented!() }
+impl MutBlock for [u8; 16] { open spec fn blk(&self) -> Seq<u8> { self@ } }
 /// what is passed as `&mut [u8]` to the block helpers (a `&mut [u8]` itself, or `&mut BytesMut` through DerefMut)
 pub trait MutBlock { spec fn blk(&self) -> Seq<u8>; }
 impl MutBlock for [u8] { open spec fn blk(&self) -> Seq<u8> { self@ } }
@@ -236,7 +245,7 @@ pub struct udp__AEADCipherCodec<const N: usize> {
     kind: CipherKind,
 }
 
-//@@ octo-squirrel/src/codec/shadowsocks/udp.rs:38-341  impl AEADCipherCodec {fn new,fn encode,fn new_encoder,fn decode,fn decode_server_packet_aead_2022,fn decode_client_packet_aead_2022,fn new_decoder}  sha=ce49cc5cf987cdd7
+//@@ octo-squirrel/src/codec/shadowsocks/udp.rs:38-347  impl AEADCipherCodec {fn new,fn encode,fn new_encoder,fn decode,fn decode_server_packet_aead_2022,fn decode_client_packet_aead_2022,fn new_decoder}  sha=c4e89f10bd893e30
 impl<const N: usize> udp__AEADCipherCodec<N> {
     spec fn wf(&self, context: &udp__Context<N>) -> bool { !(self.kind is Unknown) && N == key_len_of(self.kind) && context.key@.len() == N }
     fn new(kind: CipherKind) -> (r: Self)
@@ -467,7 +476,7 @@ impl<const N: usize> udp__AEADCipherCodec<N> {
                     proof { lemma_skip_take(s0, 16, 16); lemma_skip_skip(s0, 16, 16); }
                     /*R2*/
                     a22udp__aes_decrypt_in_place(self.kind, context.key, &mut eih)?;
-                    verif_xor_in_place(&mut eih,session_id_packet_id);
+                    eih.v_xor_with(session_id_packet_id);
                     proof { assert(eih@ == udp22_user_hash(self.kind, context.key@, s0)); }
                     if let Some(_user) = user_manager.unwrap().clone_user_by_hash(&eih) {
                         /*R2*/
@@ -779,4 +788,62 @@ fn a22udp__new_cipher(kind: CipherKind, key: &[u8], session_id: u64) -> (r: Ciph
         }
         _ => verif_panic(),
     }
+}
+
+//@@ octo-squirrel/src/codec/shadowsocks/aead_2022/udp.rs:86-104  fn with_eih  sha=580035083c27ddcf
+/// SIP022 3.2.4 (UDP identity headers): header j = AES-ECB(iPSK_j, hash(iPSK_{j+1})[0..16] xor (session id | packet id)); the last one names the user key
+spec fn udp_eih_one(kind: CipherKind, ipsk: Seq<u8>, next: Seq<u8>, sidpid: Seq<u8>) -> Seq<u8> {
+    aes_ecb_enc(aes_bits(kind), ipsk, xor_seq(blake3_hash(next).take(16), sidpid))
+}
+spec fn udp_eih_prefix(kind: CipherKind, key: Seq<u8>, iks: Seq<Seq<u8>>, sidpid: Seq<u8>, n: int) -> Seq<u8>
+    decreases n
+{
+    if n <= 0 { Seq::empty() } else { udp_eih_prefix(kind, key, iks, sidpid, n - 1) + udp_eih_one(kind, iks[n - 1], if n == iks.len() { key } else { iks[n] }, sidpid) }
+}
+fn a22udp__with_eih<const N: usize>(
+    kind: CipherKind,
+    key: &[u8],
+    identity_keys: &[[u8; N]],
+    session_id_packet_id: &[u8],
+    dst: &mut BytesMut,
+) -> (r: anyhow::Result<()>)
+    requires kind.has_eih(), N == key_len_of(kind),
+    ensures
+        //#C03 C06
+        r is Ok ==> final(dst)@ == old(dst)@ + udp_eih_prefix(kind, key@, identity_keys@.map_values(|k: [u8; N]| k@), session_id_packet_id@, identity_keys@.len() as int),
+        r is Ok,
+{
+    let ghost iks = identity_keys@.map_values(|k: [u8; N]| k@);
+    let len = identity_keys.len();
+    for i in 0..len
+        invariant kind.has_eih(), N == key_len_of(kind), len == identity_keys@.len(), iks == identity_keys@.map_values(|k: [u8; N]| k@),
+            dst@ == old(dst)@ + udp_eih_prefix(kind, key@, iks, session_id_packet_id@, i as int),
+    {
+        let mut identity_header = [0; 16];
+        if i != len - 1 {
+            a22udp__make_eih(kind, &identity_keys[i], &identity_keys[i + 1], session_id_packet_id, &mut identity_header)?;
+        } else {
+            a22udp__make_eih(kind, &identity_keys[i], key, session_id_packet_id, &mut identity_header)?;
+        }
+        dst.extend_from_slice(&identity_header);
+        proof { assert(dst@ =~= old(dst)@ + udp_eih_prefix(kind, key@, iks, session_id_packet_id@, i + 1)); }
+    }
+    Ok(())
+}
+
+//@@ octo-squirrel/src/codec/shadowsocks/aead_2022/udp.rs:106-114  fn make_eih  sha=66392f5da1017ba6
+fn a22udp__make_eih(kind: CipherKind, ipsk: &[u8], ipskn: &[u8], session_id_packet_id: &[u8], identity_header: &mut [u8; 16]) -> (r: anyhow::Result<()>)
+    requires kind.has_eih(),
+    ensures
+        //#C03 C06 C16
+        r is Ok == (ipsk@.len() == key_len_of(kind)),
+        r is Ok ==> final(identity_header)@ == udp_eih_one(kind, ipsk@, ipskn@, session_id_packet_id@),
+{
+    let hash = blake3::hash(ipskn);
+    let plain_text = &hash.as_bytes()[..16];
+    identity_header.copy_from_slice(plain_text);
+    identity_header.v_xor_with(session_id_packet_id);
+    let res = a22udp__aes_encrypt_in_place(kind, ipsk, identity_header);
+    /*R2*/
+    res
 }
